@@ -412,9 +412,13 @@ func VerifC36TwoSteps() {
 // C36 arbitrary keys: Set / Delete / Get with a key that is any 64-bit integer (symbolic, so the
 // hash and the slot search are decided by the solver) on a small state.
 //
-//symgo:harness prop=C36 tier=quick shards=4 timeout=300 bounds=state:0..2_list_members+0..1_named_member;key_any_int64_(symbolic);one_of_Set,Delete,Erase,Insert_then_Get
+//symgo:harness prop=C36 tier=quick shards=8 timeout=300 bounds=state:0..1_list_members+0..1_named_member_(thorough_0..2+0..2);key_any_int64_(symbolic);one_of_Set,Delete,Erase,Insert_then_Get
 func VerifC36AnyKey() {
-	ob, m := vobBuild(ob0(), 2, 1)
+	maxL, maxM := 1, 1
+	if rt.Thorough() {
+		maxL, maxM = 2, 2
+	}
+	ob, m := vobBuild(ob0(), maxL, maxM)
 	k := rt.Int("k")
 	v := vobVal("v")
 	switch rt.Pick("op", 4) {
@@ -449,7 +453,7 @@ func vobLess(r1, v1, r2, v2 int) bool { return r1 < r2 || (r1 == r2 && v1 < v2) 
 // but are distinguishable (the same number held as small int, as 64-bit int and as decimal)
 // keep their relative order; numbers sort before strings.
 //
-//symgo:harness prop=C36 tier=quick shards=8 timeout=300 ttimeout=1700 bounds=lists_of_2..3_members_(thorough_4);each_a_number_0..2_held_as_small_int|int64|decimal_or_a_1-byte_string outside=user_supplied_comparison_functions
+//symgo:harness prop=C36 tier=quick arith=int shards=8 timeout=300 ttimeout=1700 bounds=lists_of_2..3_members_(thorough_4);each_a_number_0..2_held_as_small_int|int64|decimal_or_a_1-byte_string outside=user_supplied_comparison_functions
 func VerifC36SortStable() {
 	n := 2 + rt.Pick("n", 2)
 	if rt.Thorough() {
@@ -505,7 +509,7 @@ func VerifC36SortStable() {
 // C36 read-only: every mutator of a read-only object or record panics and changes nothing;
 // members of a read-only object are read-only too; a copy is modifiable and independent.
 //
-//symgo:harness prop=C36 tier=quick shards=8 timeout=300 bounds=object_or_record;state:0..2_list_members+0..2_named_members;every_mutator_with_enumerated_keys;nested_member_objects_one_level outside=concurrent_objects;database_records
+//symgo:harness prop=C36 tier=quick shards=8 timeout=300 bounds=object_or_record;state:0..2_list_members+0..1_named_member;every_mutator_with_enumerated_keys;nested_member_objects_one_level outside=concurrent_objects;database_records
 func VerifC36ReadOnly() {
 	isRec := rt.Pick("record", 2) == 1
 	var c Container
@@ -517,7 +521,7 @@ func VerifC36ReadOnly() {
 		ob = &SuObject{}
 		c = ob
 	}
-	_, m := vobBuild(c, 2, 2)
+	_, m := vobBuild(c, 2, 1)
 	var child *SuObject
 	op := rt.Pick("op", 17)
 	if op >= 15 {
@@ -531,7 +535,10 @@ func VerifC36ReadOnly() {
 	}
 	c.SetReadOnly()
 	rt.Assert("readonly/flag", c.IsReadOnly())
-	k := vobKey("k", len(m.list))
+	k := 0
+	if op >= 1 && op <= 5 || op == 14 {
+		k = vobKey("k", len(m.list))
+	}
 	v := vobVal("v")
 	mayReturn := false // popping an empty list has nothing to change
 	panicked := rt.Try(func() {
